@@ -46,9 +46,13 @@ def _options(argv):
         return c
 
 
-def levels(has_t, lt, has_s1, l1, has_s2, l2, at, use_only, only, all_):
+ARGV_ALL = [['--all'], ['--all', '--at-level', '2'], ['--at-level', '2', '--all'], ['--all', '-a', '0'], ['--at-level=-1', '--all']]
+
+
+def levels(has_t, lt, has_s1, l1, has_s2, l2, at, use_only, only, all_, combo=0):
     global LAST
     has_t, has_s1, has_s2, use_only, all_ = map(cb, (has_t, has_s1, has_s2, use_only, all_))
+    combo = pick(list(range(len(ARGV_ALL))), combo)
     t = T()
     if has_t:
         t.level = lt
@@ -58,7 +62,7 @@ def levels(has_t, lt, has_s1, l1, has_s2, l2, at, use_only, only, all_):
     s2 = unittest.TestSuite([s1])
     if has_s2:
         s2.level = l2
-    o = _options(['--all'] if all_ else [])
+    o = _options(ARGV_ALL[combo] if all_ else [])      # --all together with --at-level, in either order, still means every level
     if not all_:
         o.at_level = at            # injected: argv is text, the integer stays symbolic
     o.only_level = only if use_only else None
@@ -214,14 +218,14 @@ SPEC = {
     'harnesses': [
         {'name': 'levels', 'fn': 'levels',
          'params': [('has_t', 'bool'), ('lt', 'int'), ('has_s1', 'bool'), ('l1', 'int'), ('has_s2', 'bool'),
-                    ('l2', 'int'), ('at', 'int'), ('use_only', 'bool'), ('only', 'int'), ('all_', 'bool')],
-         'call': 'has_t, lt, has_s1, l1, has_s2, l2, at, use_only, only, all_',
-         'bounds': {'quick': 'lt <= %d and l1 <= %d and l2 <= %d' % ((sys.maxsize,) * 3),
-                    'thorough': 'lt <= %d and l1 <= %d and l2 <= %d' % ((sys.maxsize,) * 3)},
+                    ('l2', 'int'), ('at', 'int'), ('use_only', 'bool'), ('only', 'int'), ('all_', 'bool'), ('combo', 'int')],
+         'call': 'has_t, lt, has_s1, l1, has_s2, l2, at, use_only, only, all_, combo',
+         'bounds': {'quick': '0 <= combo < 5 and (all_ or combo == 0) and lt <= %d and l1 <= %d and l2 <= %d' % ((sys.maxsize,) * 3),
+                    'thorough': '0 <= combo < 5 and (all_ or combo == 0) and lt <= %d and l1 <= %d and l2 <= %d' % ((sys.maxsize,) * 3)},
          'reach': 'levels_reach',
-         'fidelity': [dict(has_t=True, lt=0, has_s1=True, l1=5, has_s2=False, l2=0, at=1, use_only=False, only=0, all_=False),
-                      dict(has_t=False, lt=0, has_s1=True, l1=-3, has_s2=True, l2=9, at=0, use_only=True, only=-3, all_=False),
-                      dict(has_t=False, lt=0, has_s1=False, l1=0, has_s2=True, l2=7, at=2, use_only=False, only=0, all_=True)]},
+         'fidelity': [dict(has_t=True, lt=0, has_s1=True, l1=5, has_s2=False, l2=0, at=1, use_only=False, only=0, all_=False, combo=0),
+                      dict(has_t=False, lt=0, has_s1=True, l1=-3, has_s2=True, l2=9, at=0, use_only=True, only=-3, all_=False, combo=0),
+                      dict(has_t=False, lt=0, has_s1=False, l1=0, has_s2=True, l2=7, at=2, use_only=False, only=0, all_=True, combo=1)]},
         {'name': 'layers', 'fn': 'layers',
          'params': [('kt', 'int'), ('k1', 'int'), ('k2', 'int'), ('k3', 'int')],
          'call': 'kt, k1, k2, k3',
